@@ -37,7 +37,7 @@ fn srv_request(rng: &mut Rng, kind: &str) -> Request<'static> {
 fn gen_outcome(rng: &mut Rng, req: &Request<'_>) -> Svc {
     match rng.below(6) {
         0 => Svc::Decline,
-        1 => Svc::Exception(tokio_modbus::ExceptionCode::new(rng.u8())),
+        1 => Svc::Exception(tokio_modbus::ExceptionCode::new(rng.exc_code())),
         2 => loop {
             // services may answer with anything that fits
             let r = gen_response(rng, None);
@@ -102,7 +102,7 @@ pub fn gen_c07(out: &mut Out, rng: &mut Rng, thorough: bool) {
     // short sequences under every fragmentation
     for kind in ["tcp", "rtu"] {
         for _ in 0..(if thorough { 6 } else { 2 }) {
-            let unit = rng.u8();
+            let unit = rng.unit();
             let f1 = frame(kind, rng.u16(), unit, &[0x11]);
             let f2 = frame(kind, rng.u16(), unit, if kind == "tcp" { &[0x07] } else { &[0x0B] });
             let mut s = f1.clone();
